@@ -4,6 +4,8 @@ from __future__ import annotations
 import itertools
 from fractions import Fraction
 
+import numpy as np
+
 from symx import lib
 from symx.sarray import has_sym
 
@@ -204,7 +206,15 @@ def h_lattice(sx, cfg):
     nd = len(n)
     pmin, e, p1, p2 = region_inputs(sx, nd)
     dims = DIMSETS[cfg.get("dims", "default")][nd]
-    mesh = df.Mesh(region=df.Region(p1=p1, p2=p2, dims=dims), n=n)
+    if cfg.get("n_as_array"):
+        # the caller's own integer array: the mesh keeps its lattice whatever the caller does with that array afterwards
+        narr = np.array(n, dtype=np.int64)
+        mesh = df.Mesh(region=df.Region(p1=p1, p2=p2, dims=dims), n=narr if nd > 1 else narr)
+        narr *= 2
+        narr += 1
+    else:
+        mesh = df.Mesh(region=df.Region(p1=p1, p2=p2, dims=dims), n=n)
+    sx.check("n-as-requested", tuple(int(x) for x in mesh.n) == n)
     total = 1
     for v in n:
         total *= v
@@ -368,6 +378,22 @@ def h_fp_boundaries(sx, cfg):
             for i in range(n):
                 if mesh.point2index(mesh.index2point((i,)))[0] != i:
                     bad.append((n, "centre", i))
+            # the per-axis vertex and centre lists describe the same lattice (a few ulps of the coordinates, no drift along the axis)
+            ulp = 4 * 2.3e-16 * max(abs(pmin), abs(pmax), edge)
+            cells = [float(v) for v in mesh.cells.x]
+            if len(verts) != n + 1 or len(cells) != n:
+                bad.append((n, "counts", len(verts), len(cells)))
+                continue
+            for i, v in enumerate(verts):
+                if abs(v - (pmin + i * c)) > ulp * (1 + 0 * i):
+                    bad.append((n, "vertex", i, v))
+                    break
+            if abs(verts[-1] - pmax) > ulp or abs(verts[0] - pmin) > ulp:
+                bad.append((n, "end-vertices", verts[0], verts[-1]))
+            for i, x in enumerate(cells):
+                if abs(x - (pmin + (i + 0.5) * c)) > ulp or not (verts[i] < x < verts[i + 1]):
+                    bad.append((n, "centre-list", i, x))
+                    break
         sx.check("boundary-probes-in-range-and-contained", not bad, bad=str(bad[:5]))
 
 
@@ -376,6 +402,9 @@ def tasks(tier):
     nds = (1, 2, 3) if tier == "quick" else (1, 2, 3, 4)
     for lo, edge in ((0.0, 1.0), (0.0, 7.0), (0.0, 100e-9), (-0.3, 0.9), (1e6, 3.0)) if tier == "quick" else ((0.0, 1.0), (0.0, 7.0), (0.0, 100e-9), (-0.3, 0.9), (1e6, 3.0), (5e-9, 2.5e-8), (-1e3, 0.7)):
         t.append(dict(harness="h_fp_boundaries", cfg=dict(pmin=lo, edge=edge, ns=list(range(1, 61 if tier == "quick" else 129)))))
+    # many cells far from the origin (only these cell counts; every face is probed)
+    t.append(dict(harness="h_fp_boundaries", cfg=dict(pmin=1e6, edge=2e-5, ns=[2000])))
+    t.append(dict(harness="h_fp_boundaries", cfg=dict(pmin=-1e5, edge=4e-6, ns=[1000, 4000] if tier != "quick" else [1000])))
     for nd in nds:
         for dims in ("default", "renamed"):
             t.append(dict(harness="h_index2point", cfg=dict(ndim=nd, dims=dims)))
@@ -414,4 +443,6 @@ def tasks(tier):
         shapes += [(2, 1, 3, 2), (1, 2, 2, 3), (3, 2, 1, 2)]
     for s in shapes:
         t.append(dict(harness="h_lattice", cfg=dict(n=list(s), dims="default" if sum(s) % 2 else "renamed")))
+    for s in ((3,), (2, 3), (2, 1, 3)):
+        t.append(dict(harness="h_lattice", cfg=dict(n=list(s), dims="default", n_as_array=True)))
     return t
